@@ -55,6 +55,25 @@ type c18Case struct {
 	Method   string           `json:"method,omitempty"`
 	Cluster  *netsim.ClusterT `json:"cluster,omitempty"`
 	Cluster2 *netsim.ClusterT `json:"cluster2,omitempty"`
+	// Fault: one API-server call made while the request is handled is answered with an error (surfaces config, pod, http): the
+	// request may fail, but it must return and leave no lock held
+	Fault *ipamsim.Fault `json:"fault,omitempty"`
+}
+
+// curFault is the fault of the case being checked (armed by the surfaces that build an IPAM world)
+var curFault *ipamsim.Fault
+
+func arm(x *ipamsim.Exec) {
+	if curFault != nil {
+		x.W.ArmFault(curFault)
+	}
+}
+
+func disarm(x *ipamsim.Exec, r *vcore.Rec) {
+	if curFault != nil {
+		r.ClassIf(x.W.FaultHit(), "api_call_failed_during_request")
+		x.W.ArmFault(nil)
+	}
 }
 
 type podSpec struct {
@@ -225,6 +244,10 @@ func genC18() *rapid.Generator[c18Case] {
 		case "parsers":
 			c.Text = genText(t, "parse", []string{"10.0.70.2~10.0.70.9", "10.0.70.2", "\"10.0.70.0/24\"", "255.255.255.0", "ns/net@if", "a=b;c=d", "1.2.3.4/24"})
 		}
+		if (c.Surface == "config" || c.Surface == "pod" || c.Surface == "http") && rapid.IntRange(0, 2).Draw(t, "withFault") == 0 {
+			c.Fault = &ipamsim.Fault{K: rapid.IntRange(1, 6).Draw(t, "faultK"), Mode: "error",
+				Err: rapid.SampledFrom([]string{"internal", "timeout", "conflict", "notfound", "exists"}).Draw(t, "faultErr")}
+		}
 		return c
 	})
 }
@@ -271,6 +294,7 @@ func followUp(x *ipamsim.Exec) *vcore.Failure {
 }
 
 func checkC18(c c18Case, r *vcore.Rec) *vcore.Failure {
+	curFault = c.Fault
 	switch c.Surface {
 	case "config":
 		return checkConfig(c.Text, r)
@@ -334,7 +358,9 @@ func checkConfig(text string, r *vcore.Rec) *vcore.Failure {
 		return f
 	}
 	x.W.SetConfig(text)
+	arm(x)
 	_, err, _ := x.W.Reload()
+	disarm(x, r)
 	r.ClassIf(err == nil, "config_loaded")
 	p := x.W.CreatePod(0, &x.C.WLs[0], "s0-0")
 	if nodes, _, ferr, _ := x.W.Filter(p.Name, []string{"n0", "n1"}); ferr == nil && len(nodes) > 0 {
@@ -384,6 +410,7 @@ func checkPod(ps *podSpec, ops []string, r *vcore.Rec) *vcore.Failure {
 			runtime.Gosched()
 		}
 	}()
+	arm(x)
 	for _, op := range ops {
 		r.Class("op_" + op)
 		w.RunGuarded(func() {
@@ -418,6 +445,7 @@ func checkPod(ps *podSpec, ops []string, r *vcore.Rec) *vcore.Failure {
 			}
 		})
 	}
+	disarm(x, r)
 	close(stop)
 	<-done // (a wedged daemon never lets the writer finish: the case watchdog reports the hang)
 	return followUp(x)
@@ -438,6 +466,8 @@ func checkHTTP(method, query, body string, r *vcore.Rec) *vcore.Failure {
 	parts := strings.SplitN(method, " ", 2)
 	url := parts[1]
 	var code int
+	arm(x)
+	defer disarm(x, r)
 	w.RunGuarded(func() {
 		switch {
 		case parts[0] == "GET" && url == "/v1/ip":
